@@ -2,7 +2,7 @@
 From Coq Require Import List ZArith Bool Lia Arith.
 From MomoCommon Require Import GenPrelude.
 From C06 Require Import Spec SpecProofs WrapOrdered GenPrims GenRefine.
-From C06 Require Gen_MapAt Gen_SetEqr Gen_UMapCreate Gen_SetCreate.
+From C06 Require Gen_MapAt Gen_SetEqr Gen_UMapCreate Gen_SetCreate Gen_Vector Gen_MapIoa.
 Import ListNotations.
 Local Open Scope Z_scope.
 
@@ -69,3 +69,34 @@ Proof.
   - intros E. exfalso. exact (Hd right (eq_sym E)).
   - discriminate.
 Qed.
+
+(* ---------- stdish::vector: index / position arithmetic of at, erase, insert as regenerated ----------
+   Iterators are pointers (Z addresses); SMath::Dist(a,b) = b - a, SMath::Next(a,i) = a + i.  The nested Array operations
+   (Remove(index,count), Insert(index,value): properties C05 / C15) are abstract effects on `st`. *)
+Section Vec.
+Variables (size_ begin_ arr_ : Z) (elem_ : Z -> Z -> Z) (ev_remove ev_insert : Z -> Z -> Z -> Z).
+Definition v_dist (a b : Z) : Z := b - a.
+Definition v_next (a i : Z) : Z := a + i.
+(* at(i): out_of_range exactly for i >= size(), otherwise element i *)
+Lemma gen_vector_at_spec st i :
+  Gen_Vector.at_const size_ elem_ arr_ st i = if i <? size_ then Ok (elem_ arr_ i) else Exn.
+Proof. unfold Gen_Vector.at_const. rewrite Z.geb_leb. destruct (Z.leb_spec size_ i), (Z.ltb_spec i size_); auto; lia. Qed.
+(* erase(first,last): Array::Remove(first - begin, last - first), returns the iterator at the same index *)
+Lemma gen_vector_erase_range_spec st first last :
+  Gen_Vector.erase_range begin_ v_dist v_next ev_remove st first last = (first, ev_remove st (first - begin_) (last - first)).
+Proof. unfold Gen_Vector.erase_range, v_dist, v_next. f_equal. lia. Qed.
+Lemma gen_vector_erase_one_spec st w :
+  Gen_Vector.erase_one begin_ v_dist v_next ev_remove st w = (w, ev_remove st (w - begin_) 1).
+Proof. unfold Gen_Vector.erase_one. rewrite gen_vector_erase_range_spec. f_equal. f_equal. lia. Qed.
+(* insert(where, value): Array::Insert(where - begin, value), returns the iterator at that index *)
+Lemma gen_vector_insert_spec st w v :
+  Gen_Vector.insert_value begin_ v_dist v_next ev_insert st w v = (w, ev_insert st (w - begin_) v).
+Proof. unfold Gen_Vector.insert_value, v_dist, v_next. f_equal. lia. Qed.
+End Vec.
+
+(* ---------- map::insert_or_assign (pvInsertOrAssign) as regenerated: emplace, then assign exactly when the emplace was refused,
+   to the element at the returned position, the same argument ---------- *)
+Lemma gen_map_insert_or_assign_spec (emplace_ : Z -> Z -> Z -> Z * bool) (ev_assign : Z -> Z -> Z -> Z) st h k v :
+  Gen_MapIoa.insert_or_assign emplace_ ev_assign st h k v =
+  (emplace_ h k v, if snd (emplace_ h k v) then st else ev_assign st (fst (emplace_ h k v)) v).
+Proof. unfold Gen_MapIoa.insert_or_assign, it_id. destruct (snd (emplace_ h k v)); reflexivity. Qed.
